@@ -75,6 +75,8 @@ type world struct {
 	inbox     []J                   // messages from the Conn the reflecting peer has not handled yet
 	nextPeerQ int                   // next question id the reflecting peer uses
 	reflected map[int]int           // peer question id (reflected call) -> the Conn's question id it came from
+	reflect   bool                  // the script is an embargo scenario: the peer keeps an inbox and reflects
+	onCancel  map[int]string        // what a cancelled method body does (default: gives up with an error)
 	recvTag   map[int]bool          // tags of calls the peer sent (a call of the Conn carrying one of them is a forwarded call)
 }
 
@@ -315,6 +317,9 @@ func (w *world) recordSend(m rpccp.Message) {
 // peer's own capability, Disembargoes and Returns that carry one of the peer's capabilities wait for a
 // p-pump action.  The Return of a call the peer reflected is passed on to the original caller at once.
 func (w *world) peerSees(e J) {
+	if !w.reflect {
+		return
+	}
 	relevant := false
 	switch e["m"] {
 	case "call":
@@ -559,10 +564,17 @@ func (w *world) newCap(name string) *capnp.Client {
 		case x = <-cmd:
 		case <-ctx.Done():
 			w.log(J{"ev": "app-cancelled", "tag": tag})
-			select {
-			case x = <-cmd:
-			case <-time.After(20 * time.Millisecond):
-				x = "err" // a cancelled body gives up
+			w.mu.Lock()
+			oc, ok := w.onCancel[tag]
+			w.mu.Unlock()
+			if ok {
+				x = oc // the script says what this body does when cancelled
+			} else {
+				select {
+				case x = <-cmd:
+				case <-time.After(20 * time.Millisecond):
+					x = "err" // a cancelled body gives up
+				}
 			}
 		}
 		switch x {
@@ -677,11 +689,14 @@ func (w *world) waitStarted(tag int) bool {
 func runScript(id string, script []action) (trace []J, hang string) {
 	w := &world{toConn: make(chan *capnp.Message, 64), returns: map[int]J{}, qkind: map[int]string{},
 		cmds: map[int]chan string{}, started: map[int]chan struct{}{}, handles: map[string]*capnp.Client{}, tagCap: map[int]int{}, sentQ: map[int]bool{}, finQ: map[int]bool{}, lastEvent: time.Now(),
-		answers: map[int]*capnp.Answer{}, nextPeerQ: 20, reflected: map[int]int{}, recvTag: map[int]bool{}}
+		answers: map[int]*capnp.Answer{}, nextPeerQ: 20, reflected: map[int]int{}, recvTag: map[int]bool{}, onCancel: map[int]string{}}
 	w.log(J{"ev": "reset", "h": id})
 	for _, a := range script {
 		if a.A == "fault" {
 			w.fault = &faultPlan{op: a.Kind, at: a.K, n: map[string]int{}}
+		}
+		if a.A == "p-pump" || a.A == "l-pcall" || a.Kind == "loopcap" || a.Kind == "ok-argcap" {
+			w.reflect = true
 		}
 	}
 	conn := rpc.NewConn(&transport{w}, &rpc.Options{BootstrapClient: w.newCap("B"), AbortTimeout: 50 * time.Millisecond, ErrorReporter: reporter{w}})
@@ -1054,6 +1069,10 @@ func (w *world) step(a action, closed *bool) {
 		}
 	case "p-pump":
 		w.pump(a)
+	case "a-oncancel":
+		w.mu.Lock()
+		w.onCancel[a.Tag] = a.Kind
+		w.mu.Unlock()
 	case "l-release":
 		w.mu.Lock()
 		c := w.handles[a.H]
